@@ -108,3 +108,16 @@ Proof.
   - intros H. destruct (Nat.lt_ge_cases n 10) as [L|L]; [|exact L]. elim H. apply Nat.div_small. exact L.
   - intros H E. apply Nat.div_small_iff in E; lia.
 Qed.
+
+(* one call: the files are the batches of that call *)
+Lemma batch_files_one {A} fin k (c : list A) : batch_files fin k [c] [] = batches fin k c.
+Proof. cbn. unfold overlay. rewrite skipn_nil. apply app_nil_r. Qed.
+
+Lemma overlay_length {A} (a b : list A) : length (overlay a b) = Nat.max (length a) (length b).
+Proof. unfold overlay. rewrite app_length, skipn_length. lia. Qed.
+
+(* two calls into one directory: the first file of the first call is gone -- the files are not a record of the chain *)
+Lemma batch_files_refuted :
+  batch_files true 2 [[1; 2; 3; 4; 5]%Z; [6; 7]%Z] [] = [[6; 7]; [3; 4]; [5]]%Z /\
+  concat (batch_files true 2 [[1; 2; 3; 4; 5]%Z; [6; 7]%Z] []) <> [1; 2; 3; 4; 5; 6; 7]%Z.
+Proof. split; [vm_compute; reflexivity | vm_compute; discriminate]. Qed.
